@@ -47,7 +47,7 @@ func GenNode(r *rand.Rand, o GenOpts, nActions int) NodeSpec {
 		ns.ErrKind = ECtxAware
 	}
 	if o.MoreErrKinds && r.IntN(3) == 0 {
-		ns.ErrKind = []int{ECtxLike, ETemporary}[r.IntN(2)]
+		ns.ErrKind = []int{ECtxLike, ETemporary, EUncomparable, EJoined}[r.IntN(4)]
 	}
 	if KindCanFB(k) && k >= KFnOptRes {
 		ns.HasFB = r.IntN(2) == 0
